@@ -7,20 +7,20 @@ import Bridge.Basic
 -/
 set_option linter.unusedSimpArgs false
 namespace Bridge
+open Robust
 
-theorem one_le_shl (n : Nat) : 1 ≤ 1 <<< n := by
-  rw [Nat.one_shiftLeft]; exact Nat.one_le_two_pow
+/-! `(1 << n) - 1` and `2 ** n - 1` are the same generated term (`1 << n` is emitted as `2 ^ n`); the model spells it `1 <<< n`. -/
 
 theorem gen_uint_range (n : Nat) : Gen.UnsignedIntegerType.inclusive_value_range n = .ok (Ex.uintRange n) := by
-  simp only [Gen.UnsignedIntegerType.inclusive_value_range, sub_le (one_le_shl n), ok_bind, pure_eq_ok, Ex.uintRange]
-  congr 2
-  have := one_le_shl n
+  have h1 : 1 ≤ 2 ^ n := Nat.one_le_two_pow
+  unfold Gen.UnsignedIntegerType.inclusive_value_range
+  py_simp [Ex.uintRange, Prod.mk.injEq]
   omega
 
 theorem gen_int_range (n : Nat) : Gen.SignedIntegerType.inclusive_value_range n = .ok (Ex.intRange n) := by
-  simp only [Gen.SignedIntegerType.inclusive_value_range, sub_le (one_le_shl n), ok_bind, pure_eq_ok, floordiv_pos (show 0 < 2 by omega),
-    Ex.intRange]
-  have := one_le_shl n
-  congr 2 <;> omega
+  have h1 : 1 ≤ 2 ^ n := Nat.one_le_two_pow
+  unfold Gen.SignedIntegerType.inclusive_value_range
+  py_simp [Ex.intRange, Prod.mk.injEq]
+  omega
 
 end Bridge
